@@ -330,6 +330,12 @@ def run(tier):
                               {'history_prefix': tr[max(0, l - 6):l], 'clause': clause, 'event': l,
                                'class': 'MetadataObject' if i % 2 == 0 else 'SortableDict'})
         selftest_binding(rep, work, traces, verdict)
+        # (C') the operation sequences the repository's own test-suite performs on its ordered maps
+        import rectest
+        rec, rc = rectest.record(work)
+        rep.extra['suite_recording'] = rec['stats']
+        for f, d in rectest.judge_maps(rep, work, rec):
+            rep.violation(f, d)
     rep.rule = ('edges: every <<pre-state, operation+arguments>> pair of the bounded SDict model, replayed on '
                 'SortableDict and MetadataObject, distinct by (class, pre-state, op); histories: seeded random '
                 'programs judged event by event by Trace_SDict')
